@@ -214,6 +214,15 @@ func cmdBounded(args []string) int {
 		"checker_cmd": fmt.Sprintf("bin/lz4verif bounded --property %s --tier %s", *prop, *tier),
 		"explanation": "bounded stand-in for a property whose functions are not under a functional contract; not a proof",
 	}
+	if hybridProof != nil {
+		cov["proved_part"] = hybridProof
+		cov["obligations"] = hybridProof["obligations"]
+		cov["discharged"] = hybridProof["discharged"]
+		cov["explanation"] = "one part of the property is proved on the real code by contracts (proved_part: functions, obligations, back ends, assumptions); the rest is covered by a bounded stand-in, which is not a proof. The property as a whole is therefore claimed at the bounded level only."
+		if v, ok := hybridProof["violations"].(int); ok {
+			violations += v
+		}
+	}
 	ev := evidence{PropertyID: *prop, Tier: *tier, Seed: seed, Level: "exploration", Coverage: cov,
 		Assumptions: []string{"the independent block decoder in the harness is a correct reading of the LZ4 block format (cross-checked against the package on the clean tree)",
 			"only the stated finite family is covered; nothing is claimed outside it"},
